@@ -8,6 +8,32 @@ COMMON_ASSUME = [
 ]
 
 PROPS = {
+    "C17": {
+        "claimed": True,
+        "title": "Wallet balance is truthful and no value is lost against an honest mint",
+        "lean": ["Gonuts.Props.C17", "Gonuts.Tie.WalletBooks"],
+        "streams": ["wallet-hist", "wallet-smoke"],
+        "thorough_shards": {"wallet-hist": 3, "wallet-smoke": 1},
+        "level": "proof",
+        "technique": "Lean 4 theorems over a small-step model of the wallet's bookkeeping (Model.WalletBooks: every wallet API call as a program with ONE effect per w.db.X / client.Y call in Go statement order, run against an abstract honest mint incl. its NUT-19 response cache; histories = induction over the op list; wallet crashes = Prog.runN); the model is tied to /repo statically (Tie.WalletBooks: the call skeleton of each of 19 programs, computed from the program itself, equals the skeleton the extractor reads off the Go function, by kernel evaluation) and differentially (stream wallet-hist: 2-3 REAL wallets on real bbolt against 1-2 REAL in-process mints with scripted Lightning; after every operation outcome, balances, amount multiset per keyset of both buckets, stored counters AND the exact sequence of storage/client calls are compared with the Lean driver) plus model-free monitors reading the mint's own tables",
+        "design_ref": "DESIGN.md §4.5, §5 C17, §6 F12",
+        "text": "PROVED for every history, every selection function, and every crash prefix of every operation (invariants preserved by every single effect, lifted with EffInv.run / runN): each bucket of each wallet holds pairwise distinct secrets (W_distinct_buckets[_crash]); at every mint no output is signed twice, spent and melt-locked secrets are distinct and disjoint and each was signed by this mint with that amount (mint_books_ok[_crash]); GetBalance / PendingBalance are the sums of the buckets (W_balance_sum). FALSE on the code as it is, kernel-checked witness: W_conserve (F12: MintSwap whose melt is UNPAID leaves 32 of 64 sat in no bucket, unspent at the mint: W_conserve_full_false). The history-level forms of W_balance (spendable => UNSPENT), W_pending, cross-bucket W_distinct and W_conserve_partial are executable predicates of the model (wBalance, wPending, wDistinct, wConserve), evaluated by the driver (books.check) and decided on every operation of every stream history by the model-free monitors; they are NOT yet proved by induction over the op list.",
+        "note": "not proved: the op-level invariants (need symbolic execution of each of the 12 programs; the run-equation infrastructure and one complete instance, restoreBatch, exist in Lemmas/WalletBooksRun, WalletBooksRestoreProg). Known findings reproduced on every run: F12, its SIG_ALL swap-to-trusted variant, and the Melt-retry loss found by searching the model.",
+        "assumptions": COMMON_ASSUME,
+    },
+    "C19": {
+        "claimed": True,
+        "title": "Seed backup is complete: no counter is reused and restore recovers all funds",
+        "lean": ["Gonuts.Props.C19", "Gonuts.Tie.WalletBooks"],
+        "streams": ["wallet-hist", "wallet-crash"],
+        "thorough_shards": {"wallet-hist": 3, "wallet-crash": 2},
+        "level": "proof",
+        "technique": "same model as C17; restore_counter / restore_complete as theorems about the pure control skeleton of Restore's batch loop (scan) with the program's batch proved equal to its specification by symbolic execution of its effects; stream wallet-crash kills the REAL wallet before every storage call (storage.WalletDB proxy via VerifWrapDB) and before/after every client call (in-process transport) of mint / send / receive / melt, reopens the directory, compares with the model's crash prefix (Prog.runN), restores the mnemonic into an empty directory and compares with the mint-side truth (NUT-13 outputs derived by the harness's own BIP32 code, states read from the mint's tables), continues and restores again; stream wallet-hist monitors every B_ submitted to /v1/mint, /v1/swap, /v1/melt at the transport",
+        "design_ref": "DESIGN.md §4.5, §5 C19, §6 F10, F13",
+        "text": "PROVED: restore_counter - for every predicate 'batch b has a signature' and every fuel the fixed batch loop leaves the stored counter past every non-empty batch it visited and at the end of a non-empty batch, i.e. past every signed counter seen and less than 100 past one; restore_complete_scan - if no three consecutive batches below a non-empty one are empty the loop reaches every non-empty batch; restore_batch_program - one batch of the restore PROGRAM (its storage/client effects) equals its specification, the increment being counter - savedCounter (tied to the Go argument text by Tie.args_IncrementKeysetCounter_Restore). FALSE, kernel-checked: the code before the fix (restore_counter_old_false: 3 non-empty batches -> 600); counter_discipline on the code as it is (F13: second SIG_ALL swap-to-trusted receive resubmits counters 0..5 of the foreign keyset; F15: stale in-memory counter written back on rotation: counter_discipline_full_false, F13_witness, F15_witness with cDisciplineActive still true).",
+        "note": "not proved: counter_discipline_partial and restore_complete for whole histories (the batch loop is proved, the lifting through the three nested loops of Restore and through the other 11 programs is not); decided dynamically by wallet-hist (transport monitor of every B_, stored counter vs signed counters, Restore vs mint-side truth incl. >300 outputs, rotation, restore-continue-restore) and wallet-crash (every kill point).",
+        "assumptions": COMMON_ASSUME,
+    },
     "C08": {
         "claimed": True,
         "title": "Unlinkability: the mint never receives a blinding factor",
